@@ -224,9 +224,9 @@ CORPUS = [
     ('path-too-long-files-source', '[setup]\ndir nd = {\nfile ' + LONG + '\n}\n' + ACT, 'REJECT|HARD', 2),
     ('path-too-deep-files-source', '[setup]\ndir nd = {\nfile ' + 'a/' * 2100 + 'b\n}\n' + ACT, 'REJECT|HARD', 2),
     ('path-too-deep-cd', _setup('cd ' + 'a/' * 2100 + 'b'), 'REJECT|HARD', 2),
-    ('copy-directory-into-itself', PRE + '[setup]\ncopy -rel-act d -rel-act d/x/y\n' + ACT, None),
-    ('copy-act-directory-into-itself', '[setup]\ncopy -rel-act "" nd1/sub\n' + ACT, None),
-    ('dir-contents-of-itself', PRE + '[setup]\ndir -rel-act d/x/y = dir-contents-of -rel-act d\n' + ACT, None),
+    ('copy-directory-into-itself', PRE + '[setup]\ncopy -rel-act d -rel-act d/x/y\n' + ACT, 'REJECT|HARD', 11),
+    ('copy-act-directory-into-itself', '[setup]\ncopy -rel-act "" nd1/sub\n' + ACT, 'REJECT|HARD', 2),
+    ('dir-contents-of-itself', PRE + '[setup]\ndir -rel-act d/x/y = dir-contents-of -rel-act d\n' + ACT, 'REJECT|HARD', 11),
     ('copy-directory-into-itself-one-level', PRE + '[setup]\ncopy -rel-act d -rel-act d/x\n' + ACT, None),
     # ---- NUL --------------------------------------------------------------------------------------------------------------------
     ('nul-in-file-name', _setup('file "a\\0b.txt" = x'), None),
